@@ -66,7 +66,7 @@ class Contract:
 
     def compare_outcome(self, c, outcome, want):
         if outcome[0] != want[0]:
-            c.oblige("post", "outcome", False, {"got": outcome[0] + ":" + str(outcome[1])[:60],
+            c.oblige("post", "outcome", False, {"got": outcome[0] + ":" + str(outcome[1])[:60] + (" (" + c.memo.get("raise_msg", "") + ")" if outcome[0] == "raise" else ""),
                                                 "want": want[0] + ":" + str(want[1])[:60]})
             return
         if outcome[0] == "raise":
@@ -175,6 +175,7 @@ def verify(contract, repo: Repo, spec_override=None) -> VerifyResult:
             outcome = ("return", ret)
         except PyRaise as e:
             outcome = ("raise", e.etype)
+            c.memo["raise_msg"] = str(e.msg)[:120]
         except PathEnd:
             return ("aux", None)
         if spec_override is not None:
